@@ -27,6 +27,16 @@ def run(tier, seed, replay=None):
     step_common.add_step_obligations(ck, tu, X, want=("C06",))
     from checks import attrs_common
     attrs_common.add_attr_obligations(ck, tu, X)
+    # a later session joins the channel only if every stored property equals its own (otherwise files of two element types / cadences
+    # would sit under one drf_properties.h5 and their attributes could not all repeat it)
+    from checks import fs_common
+
+    def struct(label, ok, detail="", meta=None):
+        if label.startswith("session.compare_all"):
+            ck.struct(label, ok, detail, meta)
+    fs_common.metadata_unit(ck, tu, X, struct)
+    from checks import C11 as _c11
+    ck.replayers["session."] = _c11.replay_sessions
     ck.finding_preds["F1"] = f1_pred
     ck.replayers["digital_rf_create_rf_data_index"] = replay_index.replay
     ck.replayers["assert.digital_rf_create_rf_data_index"] = replay_index.replay
